@@ -299,10 +299,8 @@ def removeIdx (j : Nat) : List (Nat × Line) → List (Nat × Line)
   | [] => []
   | (k, l) :: rest => if k = j then rest else (k, l) :: removeIdx j rest
 
-def lastEnd (first : Placed) : List Placed → Int
-  | [] => first.line.2
-  | [r] => r.line.2
-  | _ :: t => lastEnd first t
+/-- `sorted_lines[1, -1]` -/
+def lastEnd (first : Placed) (out : List Placed) : Int := (out.getLast?.getD first).line.2
 
 def sortPointPairs (lines : List Line) (checkCircular isCircular : Bool) : Except Err (List Placed) :=
   match lines with
@@ -339,5 +337,37 @@ def sortMultiChain (lines : List Line) : List Line :=
   match lines with
   | [] => []
   | l0 :: rest => l0 :: walkZ rest.length l0.2 (enumFrom' 1 rest)
+
+/-! ### specification vocabulary (used in the statements of Props.lean) -/
+
+def dot2 (a b : P2) : Rat := a.1 * b.1 + a.2 * b.2
+
+/-- the rational is an integer (integer-coordinate inputs of the property) -/
+def IsInt (x : Rat) : Prop := ∃ z : Int, x = (z : Rat)
+def IsInt2 (p : P2) : Prop := IsInt p.1 ∧ IsInt p.2
+def IsInt3 (p : P3) : Prop := IsInt p.1 ∧ IsInt p.2.1 ∧ IsInt p.2.2
+
+/-- every line starts where the previous one ended, the first one at `prev` -/
+def ChainedFrom (prev : Int) : List Line → Prop
+  | [] => True
+  | a :: t => a.1 = prev ∧ ChainedFrom a.2 t
+
+/-- consecutive lines share a node -/
+def Chained : List Line → Prop
+  | [] => True
+  | a :: t => ChainedFrom a.2 t
+
+/-- the placed line is input column `idx`, flipped or not as recorded -/
+def Placed.FromInput (lines : List Line) (r : Placed) : Prop :=
+  ∃ l, lines[r.idx]? = some l ∧ r.line = (if r.flipped then flipL l else l)
+
+/-- the nodes `a₀ a₁ … a_k` as the path of lines `(a₀,a₁), (a₁,a₂), …` -/
+def pathLines : List Int → List Line
+  | [] => []
+  | [_] => []
+  | a :: b :: t => (a, b) :: pathLines (b :: t)
+
+/-- a line as an unordered pair -/
+def normL (l : Line) : Line := if l.1 ≤ l.2 then l else (l.2, l.1)
 
 end PorepyVerif.C31
